@@ -263,8 +263,11 @@ func c01Bombs(cfg sb.Config, rec *sb.Rec, pool *sb.Pool) {
 		depths = append(depths, 20000, 100000)
 	}
 	i := 0
-	for _, b := range bombs {
+	for bi, b := range bombs {
 		for _, d := range depths {
+			if d >= 100000 && bi > 3 && b.open != "new A(" {
+				continue // the deepest bombs only for the plain bracket kinds (others parse in quadratic time)
+			}
 			for _, tmpl := range []bool{false, true} {
 				i++
 				if !cfg.Mine(i) {
